@@ -61,6 +61,7 @@ func GenFromClassified(c *Classified, tier string) *Gen {
 		g.schemes = append(g.schemes, s)
 	}
 	sort.Strings(g.schemes)
+	g.initTemplates()
 	return g
 }
 
@@ -71,6 +72,15 @@ type Gen struct {
 	versBy  map[string][]string // VERS scheme -> vers strings
 	schemes []string
 	Tier    string
+
+	templates map[string][]string // ecosystem -> range templates
+}
+
+func (g *Gen) initTemplates() {
+	g.templates = map[string][]string{}
+	for n, ec := range g.class {
+		g.templates[n] = templatesOf(ec.ranges)
+	}
 }
 
 var schemeEco = map[string]string{
@@ -144,6 +154,7 @@ func NewGen(c *Corpus, tier string) *Gen {
 		g.schemes = append(g.schemes, s)
 	}
 	sort.Strings(g.schemes)
+	g.initTemplates()
 	return g
 }
 
@@ -233,6 +244,7 @@ func (g *Gen) Spec(seed uint64, index int) Spec {
 	// ecosystems: the index forces one so that every package gets its share
 	nEco := 1 + p.n(3)
 	used := map[string]bool{}
+	fams := map[string]*family{}
 	forced := g.names[index%len(g.names)]
 	for k := 0; k < nEco; k++ {
 		n := forced
@@ -250,6 +262,16 @@ func (g *Gen) Spec(seed uint64, index int) Spec {
 		ep := EcoPool{Name: n}
 		e := EcoByName(n)
 		nv := p.rng(2, 12)
+		if p.chance(1, 2) {
+			f := g.family(p, n)
+			fams[n] = &f
+			ep.Versions = append(ep.Versions, f.vs...)
+			ep.Ranges = append(ep.Ranges, f.rs...)
+			nv = p.rng(0, 3)
+			if len(ep.Versions) < 2 {
+				nv = 2
+			}
+		}
 		for i := 0; i < nv; i++ {
 			s := pickS(p, ec.versions)
 			if p.chance(1, 4) {
@@ -261,6 +283,9 @@ func (g *Gen) Spec(seed uint64, index int) Spec {
 		}
 		if len(ec.ranges) > 0 {
 			nr := p.rng(1, 6)
+			if fams[n] != nil && len(ep.Ranges) > 0 {
+				nr = p.rng(0, 2)
+			}
 			for i := 0; i < nr; i++ {
 				ep.Ranges = append(ep.Ranges, pickS(p, ec.ranges))
 			}
@@ -288,6 +313,14 @@ func (g *Gen) Spec(seed uint64, index int) Spec {
 		}
 	}
 
+	for _, ep := range sp.Ecos {
+		if f := fams[ep.Name]; f != nil {
+			for k := p.rng(1, 3); k > 0; k-- {
+				versPairs = append(versPairs, g.versSynth(p, ep.Name, f)...)
+			}
+		}
+	}
+
 	// hot strings for constructors: shared between tasks on purpose
 	type hot struct{ v, r []string }
 	hots := make([]hot, len(sp.Ecos))
@@ -301,6 +334,16 @@ func (g *Gen) Spec(seed uint64, index int) Spec {
 			hots[e].v = append(hots[e].v, s)
 			if len(ec.ranges) > 0 {
 				hots[e].r = append(hots[e].r, pickS(p, ec.ranges))
+			}
+		}
+		if f := fams[ep.Name]; f != nil {
+			hots[e].v = append(hots[e].v[:1], f.cands[:min(len(f.cands), 5)]...)
+			if len(f.rs) > 0 {
+				hots[e].r = append(hots[e].r[:1], f.rs...)
+			}
+			tm := g.templates[ep.Name]
+			for k := 0; k < 4 && len(tm) > 0; k++ {
+				hots[e].r = append(hots[e].r, fill(p, pickS(p, tm), f.cands))
 			}
 		}
 		if len(ec.rejects) > 0 {
